@@ -214,16 +214,18 @@ class CNLTransformer(Transformer):
     def simple_definition(self, elem) -> EntityComponent:
         name: str = elem[2].lower()
         attribute_name = Utility.DEFAULT_ATTRIBUTE
+        attribute_origin = None
         try:
             signature = SignatureManager.clone_signature(name)
             attributes = signature.get_keys_and_attributes()
             if len(attributes) == 1:
                 attribute_name = attributes[0].get_name()
+                attribute_origin = attributes[0].origin
         except EntityNotFound:
             pass
         entity = EntityComponent(name, '', [],
                                  [AttributeComponent(attribute_name,
-                                                     ValueComponent(elem[0]))])
+                                                     ValueComponent(elem[0]), attribute_origin)])
         self._proposition.add_new_knowledge(NewKnowledgeComponent(entity, auxiliary_verb=entity.auxiliary_verb))
         return entity
 
